@@ -46,21 +46,26 @@ def is_effect(fn, I):
 
 
 def find_gates(fn, callee=GATE):
-    """[(call, icmp, br, pass_block, fail_block)]: br on (call != 0)."""
+    """[(call, icmp, br, zero_block, nonzero_block)]: conditional branches whose normalised condition is
+    `call callee(...) ==/!= 0` (through zext / boolean wrappers / likely(), so that a predicate helper that was
+    inlined still shows the comparison)."""
     gates = []
-    for C in fn.calls(callee):
-        for U in fn.users(C):
-            if U.op != "icmp" or U.pred not in ("ne", "eq"):
-                continue
-            other = [o for o in U.ops if not (isinstance(o, dict) and o.get("k") == "i" and o["id"] == C.id)]
-            if len(other) != 1 or fn.const_int(other[0]) != 0:
-                continue
-            for B in fn.users(U):
-                if B.op == "br" and B.raw.get("cond"):
-                    t, f = B.raw["succ"][0], B.raw["succ"][1]
-                    # succ[0] is taken when the condition is true
-                    nonzero, zero = (t, f) if U.pred == "ne" else (f, t)
-                    gates.append((C, U, B, zero, nonzero))
+    for B in fn.all_insts():
+        if B.op != "br" or not B.raw.get("cond"):
+            continue
+        nc = ir.norm_cond(fn, B.ops[0])
+        if nc is None:
+            continue
+        val, pred, c = nc
+        C = fn.resolve(val)
+        for _ in range(4):
+            if isinstance(C, ir.Inst) and C.op in ("zext", "sext", "trunc", "freeze"):
+                C = fn.resolve(C.ops[0])
+        if not (isinstance(C, ir.Inst) and C.op == "call" and C.callee == callee) or c != 0 or pred not in ("eq", "ne"):
+            continue
+        t, f = B.raw["succ"][0], B.raw["succ"][1]
+        nonzero, zero = (t, f) if pred == "ne" else (f, t)
+        gates.append((C, fn.resolve(B.ops[0]), B, zero, nonzero))
     return gates
 
 
@@ -110,40 +115,32 @@ def check_self_tests_fn(chk, mods, rule="R13.4"):
         return
     C = chk_calls[0]
     n = 0
-    for path in ir.iter_paths(F, F.entry.id):
-        R = F.term(F.bmap[path[-1]])
-        v = ir.eval_on_path(F, R.ops[0], path)
+    for P in ir.paths_with_facts(F, max_paths=5000):
+        if P.contradictory(F):
+            continue
+        path = P.blocks
+        R = P.retinst
+        v = P.ret
         n += 1
-        # collect branch facts on the path
-        facts = []
-        for k, b in enumerate(path[:-1]):
-            T = F.term(F.bmap[b])
-            if T.op == "br" and T.raw.get("cond"):
-                cond = F.resolve(T.ops[0])
-                taken_true = (T.raw["succ"][0] == path[k + 1])
-                facts.append((cond, taken_true))
         ok = True
         why = ""
-        ran_tests = any(I.op == "call" and I.callee in ("_aes_self_tests", "_sha_self_tests") for b in path for I in F.bmap[b].insts)
+        ran_tests = any(I.op == "call" and I.callee in ("_aes_self_tests", "_sha_self_tests") for I in P.insts)
         if v == 0:
-            # justification: a fact "X == 0" holds for X = status (not having run tests) or X = or(aes,sha)
+            # justification: a fact "X == 0" holds for X = status (not having run tests) or X = or(aes,sha);
+            # branch and switch forms alike (facts are normalised, values resolved along the path)
             just = False
-            for cond, taken in facts:
-                cmp_ = strip_expect(F, cond)
-                if cmp_ is None:
+            for (val, pred, k, _t, br, pos), fk in zip(P.facts, P.fact_k):
+                if pred != "eq" or k != 0:
                     continue
-                val, pred, k = cmp_
-                if k != 0:
-                    continue
-                holds_eq0 = (pred == "eq" and taken) or (pred == "ne" and not taken)
-                if not holds_eq0:
-                    continue
-                base = F.resolve(val)
+                base = P.at(F, val, fk)
+                for _ in range(4):
+                    if isinstance(base, ir.Inst) and base.op in ("zext", "sext", "trunc", "freeze"):
+                        base = P.at(F, base.ops[0], fk)
                 if isinstance(base, ir.Inst) and base.id == C.id and not ran_tests:
                     just = True
                 if isinstance(base, ir.Inst) and base.op == "or" and ran_tests:
-                    srcs = [F.resolve(o) for o in base.ops]
-                    names = sorted((s.callee or "") for s in srcs if isinstance(s, ir.Inst) and s.op == "call")
+                    srcs = [P.at(F, o, fk) for o in base.ops]
+                    names = sorted((s_.callee or "") for s_ in srcs if isinstance(s_, ir.Inst) and s_.op == "call")
                     if names == ["_aes_self_tests", "_sha_self_tests"]:
                         just = True
             ok = just
